@@ -80,7 +80,7 @@ CHECKS = {
          "every aligned, well-formed, domain-level-complementary (sequence, structure) with non-empty strands is the flattening "
          "of such a tree and conversely (both missing guards refuted with witnesses); and the whole chain kernel_string -> "
          "PEG parse of the regenerated grammar -> resolve_kernel_loops returns exactly (sequence, structure) for all names over "
-         "the identifier alphabet, for every sufficiently large parser fuel. Partial: sufficiency of the default fuel. The complete chain kernel_string -> Gallina PEG parse of the "
+         "the identifier alphabet, with the parser's own default fuel (C12_kernel_roundtrip: nothing left partial). The complete chain kernel_string -> Gallina PEG parse of the "
          "regenerated grammar -> resolve_kernel_loops is run against the implementation's chain on all structures up to a "
          "length bound and random deep ones, and the object-level round trip (every rotation, identical singleton) is "
          "executed on the implementation.",
